@@ -92,6 +92,12 @@ def parse_rfc3339_datetime(rfc3339):
 
     if "." not in date:
         date = date + ".0"
+    else:
+        # RFC3339 allows any number of fractional second digits, but strptime's
+        # %f only accepts up to six (microseconds) so truncate any extra ones.
+        seconds, fraction = date.rsplit(".", 1)
+        if fraction.isdigit():
+            date = seconds + "." + fraction[:6]
     raw_datetime = datetime.strptime(date, "%Y-%m-%dT%H:%M:%S.%f")
     delta = timedelta(hours=int(offset[-5:-3]), minutes=int(offset[-2:]))
     if offset[0] == "-":
@@ -229,8 +235,10 @@ class StateEngine(object):
         default value for Execution TimeoutSeconds if not explicitly set in
         the ASL. This is used by Task timeouts and also the "back stop"
         check_for_expired_branch_results.
+        The config value may be a number or, when it comes from the
+        STATE_ENGINE_EXECUTION_TTL environment variable, a numeric string.
         """
-        self.execution_ttl = config["state_engine"]["execution_ttl"]
+        self.execution_ttl = int(float(config["state_engine"]["execution_ttl"]))
 
         """
         Holds metadata about Parallel state Branches or Map state Iterations.
@@ -1528,9 +1536,14 @@ class StateEngine(object):
             cause the execution to fail. Similarly, with a Task.Terminated
             error we want terminated Tasks to end immediately.
             A retry or catch on States.ALL will not catch these errors.
+            Exceeding the execution history quota is a property of the
+            execution, not of the state that happened to be entered: if it
+            could be retried or caught the execution would carry on and its
+            history would carry on growing.
             """
             unrecoverable = (error_type == "States.Runtime" or
                              error_type == "States.ExecutionTimeout" or
+                             error_type == "States.ExecutionHistoryLimitExceeded" or
                              error_type == "Task.Terminated")
 
             retry = state.get("Retry")
@@ -1581,19 +1594,6 @@ class StateEngine(object):
                             )
 
                             """
-                            Tidy up self.branch_metadata for current execution_arn
-                            before republishing the state event. This only
-                            applies when the state being retried is itself a
-                            Parallel or Map state, whose branches have been
-                            terminated. Retrying a state *inside* a branch
-                            must leave the results and held events of its
-                            sibling branches alone.
-                            """
-                            if (execution_arn in self.branch_metadata and
-                                state.get("Type") in ("Parallel", "Map")):
-                                self.check_pending_results(execution_arn)
-
-                            """
                             Republish the Task state event with the new
                             RetryCount and RetryTimeout set. We also adjust
                             EnteredTime above. The ASL spec is unclear on
@@ -1609,6 +1609,23 @@ class StateEngine(object):
                             """
                             self.event_dispatcher.publish(event)
                             retry_matched = True
+
+                            """
+                            Tidy up self.branch_metadata for current execution_arn
+                            now that the state event has been republished. This
+                            only applies when the state being retried is itself
+                            a Parallel or Map state, whose branches have been
+                            terminated. Retrying a state *inside* a branch
+                            must leave the results and held events of its
+                            sibling branches alone. The tidy up acknowledges
+                            the events held for the terminated branches, so it
+                            must follow the publish: until the retry event is
+                            on the queue the held events are all that a restart
+                            could resume the execution from.
+                            """
+                            if (execution_arn in self.branch_metadata and
+                                state.get("Type") in ("Parallel", "Map")):
+                                self.check_pending_results(execution_arn)
 
                         break
 
@@ -2667,6 +2684,33 @@ class StateEngine(object):
                 )
 
                 execution_arn = context["Execution"]["Id"]
+
+                """
+                Like the edge case of a Map state with an empty input array,
+                a Parallel state with no Branches has no branch to wait for:
+                no event would be published and no result would ever be
+                collected, so the execution would be left RUNNING for ever.
+                Its result is the (empty) array of the outputs of its branches.
+                """
+                if not state.get("Branches"):
+                    result = evaluate_payload_template(
+                        [], context, state.get("ResultSelector")
+                    )
+
+                    # Parallel and Map states apply ResultPath to "raw input"
+                    event["data"] = merge_result(data, context, result, state)
+
+                    if state.get("End"):
+                        handle_terminal_state(state_type, event, id)
+                    else:
+                        error_type, error_message = self.change_state(
+                            state_machine, state_type, state.get("Next"), event
+                        )
+                        if error_type:
+                            handle_error(state, error_type, error_message)
+
+                        self.event_dispatcher.acknowledge(id)
+                    return
 
                 """
                 A Parallel State MUST contain a field named “Branches” which
